@@ -72,6 +72,10 @@ pub struct Call {
     pub expect_salt: Option<Vec<u8>>,
     /// scripted expectation on the first result (`expect=` of the op), and the property it belongs to
     pub expect: Option<(String, String)>,
+    /// `mute=1`: the caller polls its future once (the request is submitted) and then leaves it alone —
+    /// neither polled nor dropped — until the end of the case; what it is handed is not shown
+    pub muted: bool,
+    pub polled: bool,
 }
 
 pub fn key_from_seed(seed: u64) -> SigningKey {
@@ -141,6 +145,8 @@ pub struct NodeStream {
     pub last_events: Vec<String>,
     pub client_mode_cfg: bool,
     pub steps: u64,
+    /// the end of the case: parked callers come back to their futures
+    pub unmute: bool,
     pub last_snapshot: Option<Snapshot>,
     /// when each request key was last sent
     pub req_sent_at: HashMap<String, u64>,
@@ -158,6 +164,8 @@ pub struct NodeStream {
     /// (ro flag, line) of requests the node sent since the last snapshot
     pub requests_since_snap: Vec<(bool, String)>,
     pub first_seen_in_table: HashMap<SocketAddrV4, u64>,
+    /// (time, routing-table addresses) of earlier snapshots of this case
+    pub table_history: Vec<(u64, Vec<SocketAddrV4>)>,
     pub first_seen_in_signed: HashMap<SocketAddrV4, u64>,
     pub has_bootstrap: bool,
     pub sent_since_snap: usize,
@@ -179,6 +187,7 @@ impl NodeStream {
             last_events: vec![],
             client_mode_cfg: true,
             steps: 0,
+            unmute: false,
             last_snapshot: None,
             req_sent_at: HashMap::new(),
             answered: HashMap::new(),
@@ -188,6 +197,7 @@ impl NodeStream {
             replies_since_snap: vec![],
             requests_since_snap: vec![],
             first_seen_in_table: HashMap::new(),
+            table_history: vec![],
             first_seen_in_signed: HashMap::new(),
             has_bootstrap: false,
             sent_since_snap: 0,
@@ -250,9 +260,10 @@ impl NodeStream {
         // error in a plain put comes from what remote nodes sent
         let any_put_mut = self.calls.iter().any(|c| c.what.split(' ').nth(2) == Some("put_mut"));
         for c in self.calls.iter_mut() {
-            if c.done {
+            if c.done || (c.muted && c.polled && !self.unmute) {
                 continue;
             }
+            c.polled = true;
             let no = c.no;
             let mut kind = c.kind.take();
             let mut events: Vec<String> = vec![];
@@ -461,7 +472,9 @@ impl NodeStream {
                 c.kind = None;
             }
             c.results.extend(events.iter().cloned());
-            self.last_events.extend(events);
+            if !c.muted {
+                self.last_events.extend(events);
+            }
         }
     }
 
@@ -668,6 +681,21 @@ impl NodeStream {
             }
         }
         self.sent_since_snap = 0;
+        // every entry is pinged in every 5-minute round unless it was heard from in the last seconds: an
+        // address that sat in the table ten minutes ago and still does was asked something, or heard from,
+        // in between
+        if let Some((then, addrs)) = self.table_history.iter().rev().find(|(t, _)| now - *t >= 10 * 60 * SEC) {
+            for a in addrs.iter().filter(|a| in_table.contains(*a)) {
+                // (a ping: lookups ask whoever is close to their target, the ping round asks every entry)
+                let asked = self.all_sent.iter().any(|x| x.to == *a && x.at > *then && x.key.as_deref().map(|k| k.contains("/ping/")).unwrap_or(false));
+                let heard = self.any_reply.get(a).map(|t| *t > *then).unwrap_or(false) || self.ro_requesters.contains_key(a) && false;
+                if !asked && !heard {
+                    out.violation("C14", "table-entry-never-pinged", format!("{a} has been in the routing table for the last {} minutes and the node neither pinged it nor heard from it in that time: the ping rounds skip it", (now - *then) / (60 * SEC)));
+                    break;
+                }
+            }
+        }
+        self.table_history.push((now, in_table.iter().copied().collect()));
         for a in &in_table {
             self.first_seen_in_table.entry(*a).or_insert(now);
         }
@@ -730,7 +758,7 @@ impl NodeStream {
     }
 
     pub fn pending_calls(&self) -> Vec<u32> {
-        self.calls.iter().filter(|c| !c.done).map(|c| c.no).collect()
+        self.calls.iter().filter(|c| !c.done && (!c.muted || self.unmute)).map(|c| c.no).collect()
     }
 
     pub fn shutdown(&mut self) {
@@ -761,7 +789,18 @@ impl Stream for NodeStream {
         let server_mode = kv(args, "mode") == Some("s");
         let boot: Vec<String> = match kv(args, "boot") {
             Some("-") | None => vec![],
-            Some(l) => l.split(',').map(|a| parse_addr(a).to_string()).collect(),
+            // `bad1`..`bad4` stand for entries of the bootstrap list that do not resolve (no DNS is
+            // involved: they fail to parse as host:port); the builder skips them
+            Some(l) => l
+                .split(',')
+                .map(|a| match a {
+                    "bad1" => "not an address".to_string(),
+                    "bad2" => "10.1.0.1".to_string(),
+                    "bad3" => "10.1.0.1:99999".to_string(),
+                    "bad4" => String::new(),
+                    a => parse_addr(a).to_string(),
+                })
+                .collect(),
         };
         let public_ip: Option<Ipv4Addr> = match kv(args, "pub") {
             Some("-") | None => None,
@@ -794,6 +833,8 @@ impl Stream for NodeStream {
         self.dht = Some(dht);
         self.alive = true;
         self.calls.clear();
+        self.table_history.clear();
+        self.unmute = false;
         self.reqs.clear();
         self.all_sent.clear();
         self.last_sent.clear();
@@ -987,7 +1028,7 @@ impl Stream for NodeStream {
                 let toks = &t[3..];
                 let d = self.dht.as_ref().expect("dht").clone().as_async();
                 let now = verif::now_ns();
-                let mut call = Call { no, kind: None, what: op.to_string(), done: false, started_at: now, finished_at: None, results: vec![], expect_target: None, expect_key: None, expect_salt: None, expect: kv(toks, "expect").map(|e| (e.to_string(), kv(toks, "prop").unwrap_or("C17").to_string())) };
+                let mut call = Call { no, kind: None, what: op.to_string(), done: false, started_at: now, finished_at: None, results: vec![], expect_target: None, expect_key: None, expect_salt: None, expect: kv(toks, "expect").map(|e| (e.to_string(), kv(toks, "prop").unwrap_or("C17").to_string())), muted: kv(toks, "mute") == Some("1"), polled: false };
                 let kind = match t[2] {
                     "put_imm" => {
                         let v = unhex(kv(toks, "v").expect("v"));
@@ -1125,6 +1166,8 @@ pub struct VNet {
     pub list_k: usize,
     /// list them farthest first
     pub list_rev: bool,
+    /// list `list_k` nodes picked at random (a function of the responder and the target) instead of the closest
+    pub list_random: bool,
 }
 
 fn xor_cmp(t: &Id, a: &Id, b: &Id) -> std::cmp::Ordering {
@@ -1149,7 +1192,7 @@ impl VNet {
             by_addr.insert(addr, i);
             peers.push(VPeer { id, addr, alive: true, mode: 0, read_only: false, imm: HashMap::new(), muts: HashMap::new(), peers: HashMap::new(), speers: HashMap::new(), put_reply: 0, forge: 0, extra_delay: 0, put_delay: 0, ignore_gets: false, ignore_puts: false, ro_puts: false, echo_requester: false, chain_for: None, legacy: false });
         }
-        VNet { peers, by_addr, list_k: 8, list_rev: false }
+        VNet { peers, by_addr, list_k: 8, list_rev: false, list_random: false }
     }
     pub fn closest(&self, target: &Id, k: usize) -> Vec<Node> {
         let mut v: Vec<&VPeer> = self.peers.iter().collect();
@@ -1168,7 +1211,12 @@ impl VNet {
                 let v: Vec<Node> = if ct == t { list.iter().map(|&j| Node::new(s.peers[j].id, s.peers[j].addr)).collect() } else { vec![] };
                 return v.into_boxed_slice();
             }
-            let mut v = s.closest(t, s.list_k);
+            let mut v = if s.list_random {
+                let mut r = Rng::new(fnv(t.as_bytes()) ^ (i as u64).wrapping_mul(0x9e37_79b9_7f4a_7c15));
+                (0..s.list_k).map(|_| { let p = &s.peers[r.below(s.peers.len() as u64) as usize]; Node::new(p.id, p.addr) }).collect::<Vec<Node>>()
+            } else {
+                s.closest(t, s.list_k)
+            };
             if s.list_rev {
                 v.reverse();
             }
@@ -1425,6 +1473,8 @@ pub struct Driver<'a> {
     pub net: VNet,
     pub queue: Vec<InFlight>,
     pub latency: u64,
+    /// unresolvable entries of the bootstrap list: (position among the entries, token `bad1`..`bad4`)
+    pub boot_bad: Vec<(usize, &'static str)>,
     pub seq: u64,
     pub next_call: u32,
     pub drop_pct: u64,
@@ -1445,7 +1495,7 @@ pub struct Driver<'a> {
 
 impl<'a> Driver<'a> {
     pub fn new(out: &'a mut Out, seed: u64, net: VNet) -> Self {
-        Driver { s: NodeStream::new(), out, rng: Rng::new(seed), net, queue: vec![], latency: 5 * MS, seq: 0, next_call: 0, drop_pct: 0, dup_pct: 0, late_pct: 0, reachable: false, known: Default::default(), report_ip: None, tid0: None, deny: None, delivered: vec![] }
+        Driver { s: NodeStream::new(), out, rng: Rng::new(seed), net, queue: vec![], latency: 5 * MS, seq: 0, next_call: 0, drop_pct: 0, dup_pct: 0, late_pct: 0, reachable: false, known: Default::default(), report_ip: None, tid0: None, deny: None, delivered: vec![], boot_bad: vec![] }
     }
     /// a peer sends a request to the node
     pub fn inject_request(&mut self, from: SocketAddrV4, requester: Id, rt: RequestTypeSpecific, ro: bool) {
@@ -1457,7 +1507,11 @@ impl<'a> Driver<'a> {
     }
     /// `ip`: the node's real address when it is not the configured public one
     pub fn begin_at(&mut self, mode: &str, boot: &[SocketAddrV4], public: Option<Ipv4Addr>, ip: Option<Ipv4Addr>, seed: u64, t0: u64) {
-        let b = if boot.is_empty() { "-".to_string() } else { boot.iter().map(addr_s).collect::<Vec<_>>().join(",") };
+        let mut entries: Vec<String> = boot.iter().map(addr_s).collect();
+        for (pos, tok) in self.boot_bad.iter() {
+            entries.insert((*pos).min(entries.len()), tok.to_string());
+        }
+        let b = if entries.is_empty() { "-".to_string() } else { entries.join(",") };
         let p = public.map(|ip| u32::from(ip).to_string()).unwrap_or("-".into());
         self.queue.clear();
         self.known.clear();
@@ -1606,6 +1660,8 @@ impl<'a> Driver<'a> {
     }
     /// let every request expire, idle for a minute, and assert quiescence
     pub fn finish(&mut self) {
+        // parked callers come back to their futures now (nothing of what they are handed is shown)
+        self.s.unmute = true;
         self.settle(30 * SEC, 20 * MS);
         self.queue.clear();
         self.run("adv 60000000000".into());
@@ -2368,6 +2424,69 @@ pub fn run(out: &mut Out, seed: u64, thorough: bool, replay: Option<&str>) {
             d.s.shutdown();
         }
     }
+    // ---- E3 (C15, C03): a server node lives through its 15-minute table refresh while strangers look things
+    //          up and write with the tokens they were given.  A token is good for at least five minutes after
+    //          it was issued, whatever the node did in between (refresh, ping rounds, other requests): every
+    //          write with a token issued less than five minutes ago is acknowledged
+    for round in 0..(if thorough { 3 } else { 1 }) {
+        t0 += 10_000_000_000_000;
+        let net = VNet::new(&mut rng, 4, true);
+        let boot = vec![net.peers[0].addr];
+        let mut d = Driver::new(out, rng.next(), net);
+        d.begin("s", &boot, None, rng.next() % 1_000_000 + 1, t0);
+        d.run_for(2 * SEC, 10 * MS);
+        let from = SocketAddrV4::new(Ipv4Addr::new(10, 9, 1, 7), 6881);
+        let rid = Id::from_bytes(d.rng.id20()).expect("id");
+        let ih = Id::from_bytes(d.rng.id20()).expect("id");
+        // (minute, second) of each action, relative to the start; a lookup hands out a token, a write uses the
+        // latest one
+        let plan: [(u64, u64, &str); 12] = [(9, 50, "ping"), (14, 49, "lookup"), (14, 51, "ping"), (15, 10, "write"), (15, 20, "lookup"),
+            (19, 55, "write"), (20, 2, "ping"), (20, 15, "write"), (24, 0, "lookup"), (26, 30, "ping"), (28, 50, "write"), (31, 0, "ping")];
+        let start = verif::now_ns();
+        let mut token: Option<(Vec<u8>, u64)> = None;
+        for (m, sec, what) in plan.iter() {
+            let at = start + (m * 60 + sec) * SEC + round as u64 * 7 * SEC;
+            let now = verif::now_ns();
+            if at > now {
+                d.run_for(at - now, SEC);
+            }
+            let before = d.s.all_sent.len();
+            match *what {
+                "ping" => d.inject_request(from, rid, RequestTypeSpecific::Ping, false),
+                "lookup" => d.inject_request(from, rid, RequestTypeSpecific::GetPeers(GetPeersRequestArguments { info_hash: ih }), false),
+                _ => {
+                    let Some((tok, _)) = &token else { continue };
+                    d.inject_request(from, rid, RequestTypeSpecific::Put(PutRequest { token: tok.clone().into_boxed_slice(), put_request_type: PutRequestSpecific::AnnouncePeer(AnnouncePeerRequestArguments { info_hash: ih, port: 7000, implied_port: None }) }), false);
+                }
+            }
+            d.run_for(50 * MS, 10 * MS);
+            let replies: Vec<Sent> = d.s.all_sent[before..].iter().filter(|x| x.to == from).cloned().collect();
+            match *what {
+                "lookup" => {
+                    for r in &replies {
+                        if let MessageType::Response(ResponseSpecific::NoValues(a)) = r.msg.message_type() {
+                            token = Some((a.token.to_vec(), verif::now_ns()));
+                        }
+                        if let MessageType::Response(ResponseSpecific::GetPeers(a)) = r.msg.message_type() {
+                            token = Some((a.token.to_vec(), verif::now_ns()));
+                        }
+                    }
+                }
+                "write" => {
+                    let age = token.as_ref().map(|(_, t)| verif::now_ns() - *t).unwrap_or(0);
+                    let acked = replies.iter().any(|r| matches!(r.msg.message_type(), MessageType::Response(ResponseSpecific::Ping(_))));
+                    if age < 300 * SEC && !acked {
+                        d.out.violation("C15", "fresh-token-rejected", format!("an announce_peer with a token this node issued to the same address {} s ago was answered {:?}", age / SEC, replies.iter().map(|r| r.line.chars().take(90).collect::<String>()).collect::<Vec<_>>()));
+                    }
+                }
+                _ => {}
+            }
+        }
+        d.run("snap".into());
+        d.finish();
+        d.out.mark_distinct(fnv(format!("E3{round}").as_bytes()));
+        d.s.shutdown();
+    }
     // ---- E2: storing nodes that flag their answers to PUT requests read-only (C18): acknowledgements and
     //          errors flagged ro = 1 are ignored, so nothing was acknowledged
     for (code, mutable) in [(0i32, false), (0, true), (301, true), (302, true)] {
@@ -2423,6 +2542,40 @@ pub fn run(out: &mut Out, seed: u64, thorough: bool, replay: Option<&str>) {
         }
         d.finish();
         d.out.mark_distinct(fnv(format!("F{reachable}{explicit_server}{n}").as_bytes()));
+        d.s.shutdown();
+    }
+    // ---- F4 (C18): the same reachable adaptive node, but one of its two bootstrap addresses is dead and the
+    //          application looks things up at once: the bootstrap lookup and the calls issued in the first
+    //          iteration all wait for the dead node and end in the same tick, each bringing the votes it
+    //          collected.  The first of them reports the address; the self-ping must still go out
+    for lookups in [1usize, 3] {
+        t0 += 10_000_000_000_000;
+        let net = VNet::new(&mut rng, 6, false);
+        let dead = SocketAddrV4::new(Ipv4Addr::new(51, 9, 9, 9), 6881);
+        let boot = vec![net.peers[0].addr, dead];
+        let mut d = Driver::new(out, rng.next(), net);
+        d.reachable = true;
+        d.begin("c", &boot, Some(Ipv4Addr::new(45, 7, 7, 8)), rng.next() % 1_000_000 + 1, t0);
+        for _ in 0..lookups {
+            let t = Id::from_bytes(d.rng.id20()).expect("id");
+            d.api(format!("get_peers ih={}", hex(t.as_bytes())));
+        }
+        d.run_for(3 * SEC, 10 * MS);
+        d.run("snap".into());
+        d.run_for(16 * 60 * SEC, SEC);
+        d.api("info".into());
+        d.run_for(3 * SEC, 10 * MS);
+        d.run("snap".into());
+        if let Some(sn) = d.s.last_snapshot.clone() {
+            if !sn.server_mode {
+                d.out.violation("C18", "adaptive-never-server", format!("after 16 minutes a node that is reachable at the address its peers report is still in client mode (firewalled={}, public_address={:?}); {lookups} lookups were issued while it bootstrapped from a list with one dead address", sn.firewalled, sn.public_address));
+            }
+            if sn.firewalled {
+                d.out.violation("C18", "reachable-still-firewalled", "the node is reachable at the address its peers report but still considers itself firewalled".into());
+            }
+        }
+        d.finish();
+        d.out.mark_distinct(fnv(format!("F4{lookups}").as_bytes()));
         d.s.shutdown();
     }
     // ---- G: hours of uptime (C14): steady peers, a peer that goes silent, one that comes back
@@ -2889,6 +3042,62 @@ pub fn run(out: &mut Out, seed: u64, thorough: bool, replay: Option<&str>) {
         d.out.mark_distinct(fnv(format!("K5{round}").as_bytes()));
         d.s.shutdown();
     }
+    // ---- K6 (C16): get_mutable_most_recent joins the lookup of the node's OWN put of the same key.  The put
+    //          (seq 3) is still looking up; a fast node has already answered with seq 10, a slow one will answer
+    //          with seq 5.  The joining caller is handed the node's own item and everything the lookup has
+    //          collected so far, so it returns seq 10
+    for round in 0..(if thorough { 3 } else { 1 }) {
+        t0 += 10_000_000_000_000;
+        let newest = MutableItem::new(&key_from_seed(9), b"ten", 10, None);
+        let older = MutableItem::new(&key_from_seed(9), b"five", 5, None);
+        let target = *newest.target();
+        let mut net = VNet::new(&mut rng, 3 + round, true);
+        net.peers[0].muts.insert(target, (newest.value().to_vec(), *newest.key(), newest.seq(), *newest.signature()));
+        for p in net.peers.iter_mut().skip(1) {
+            p.muts.insert(target, (older.value().to_vec(), *older.key(), older.seq(), *older.signature()));
+            p.extra_delay = 400 * MS;
+            p.put_reply = 302;
+        }
+        net.peers[0].put_reply = 302;
+        let boot = vec![net.peers[0].addr];
+        let mut d = Driver::new(out, rng.next(), net);
+        d.begin("c", &boot, None, rng.next() % 1_000_000 + 1, t0);
+        d.run_for(2 * SEC, 10 * MS);
+        let put = put_mut_call(9, 3, b"three", None, None);
+        d.api(put);
+        d.run_for(150 * MS, 10 * MS);
+        let c = d.api(format!("get_mut_recent k={} salt=none", hex(key_from_seed(9).verifying_key().as_bytes())));
+        d.settle(20 * SEC, 10 * MS);
+        let got = d.results(c);
+        let delivered_newest = d.delivered.iter().any(|(_, _, mt)| matches!(mt, MessageType::Response(ResponseSpecific::GetMutable(a)) if a.seq == 10));
+        if delivered_newest && !got.iter().any(|r| r.contains(":recent:") && r.contains("seq=10 ")) {
+            d.out.violation("C16", "newest-item-missed", format!("the lookup this call joined had already been handed an authentic item with seq 10, but get_mutable_most_recent returned {:?}", got.iter().map(|r| r.chars().take(90).collect::<String>()).collect::<Vec<_>>()));
+        }
+        d.finish();
+        d.out.mark_distinct(fnv(format!("K6{round}").as_bytes()));
+        d.s.shutdown();
+    }
+    // ---- S2 (C05, C07): hundreds of peers whose answers list 75 nodes picked at random: one lookup collects
+    //          several hundred distinct candidates
+    for round in 0..(if thorough { 2 } else { 1 }) {
+        t0 += 10_000_000_000_000;
+        let mut net = VNet::new(&mut rng, 520 + 80 * round, false);
+        net.list_k = 75;
+        net.list_random = true;
+        let boot = vec![net.peers[0].addr];
+        let mut d = Driver::new(out, rng.next(), net);
+        d.begin(if round == 0 { "s" } else { "c" }, &boot, Some(Ipv4Addr::new(45, 7, 8, 8)), rng.next() % 1_000_000 + 1, t0);
+        d.run_for(5 * SEC, 10 * MS);
+        let t = Id::from_bytes(d.rng.id20()).expect("id");
+        d.api(format!("find_node t={}", hex(t.as_bytes())));
+        d.settle(60 * SEC, 10 * MS);
+        d.api("info".into());
+        d.settle(5 * SEC, 10 * MS);
+        d.run("snap".into());
+        d.finish();
+        d.out.mark_distinct(fnv(format!("S2{round}").as_bytes()));
+        d.s.shutdown();
+    }
     // ---- O: answers of the wrong shape (C05, C06, C08): nodes that answer lookups with a KRPC error or a bare
     //         ping response, and put requests with a find_node- or no-values-shaped response — neither an
     //         acknowledgement nor an error.  Lookups go on without them; such puts count nothing
@@ -3010,6 +3219,29 @@ pub fn run(out: &mut Out, seed: u64, thorough: bool, replay: Option<&str>) {
         d.finish();
         d.out.mark_distinct(fnv(format!("Q{round}").as_bytes()));
         d.out.count(if dead { "bootstrapped-dead-list" } else { "bootstrapped-live-list" });
+        d.s.shutdown();
+    }
+    // ---- Q2 (C13): bootstrap lists in which entries that do not resolve precede, follow or surround the
+    //          address of the live server: the node joins through the live one
+    for (k, bad) in [vec![(0usize, "bad1")], vec![(0, "bad2"), (1, "bad3")], vec![(1, "bad1")], vec![(0, "bad4"), (2, "bad2")]].into_iter().enumerate() {
+        t0 += 10_000_000_000_000;
+        let net = VNet::new(&mut rng, 4, true);
+        let boot = vec![net.peers[0].addr];
+        let mut d = Driver::new(out, rng.next(), net);
+        d.boot_bad = bad;
+        d.begin(if k % 2 == 0 { "c" } else { "s" }, &boot, None, rng.next() % 1_000_000 + 1, t0);
+        let c1 = d.api("bootstrapped".into());
+        d.settle(20 * SEC, 10 * MS);
+        d.run_for(3 * SEC, 10 * MS);
+        d.run("snap".into());
+        if !d.results(c1).iter().any(|r| r.ends_with("bootstrapped:true")) {
+            d.out.violation("C13", "bootstrapped-wrong", format!("bootstrapped() yielded {:?} although the bootstrap list names a live server (next to entries that do not resolve)", d.results(c1)));
+        }
+        if d.s.last_snapshot.as_ref().map(|s| s.routing_table.is_empty()).unwrap_or(true) {
+            d.out.violation("C13", "live-bootstrap-not-joined", "the bootstrap list names a live server next to entries that do not resolve, and the node's routing table is empty after its bootstrap".into());
+        }
+        d.finish();
+        d.out.mark_distinct(fnv(format!("Q2{k}").as_bytes()));
         d.s.shutdown();
     }
     // ---- F2: adaptive node confirmed at address A; then its peers report another address B that is
@@ -3165,6 +3397,46 @@ pub fn run(out: &mut Out, seed: u64, thorough: bool, replay: Option<&str>) {
             d.out.mark_distinct(fnv(format!("M{stored_seq}{}", salt.is_some()).as_bytes()));
             d.s.shutdown();
         }
+    }
+    // ---- M3 (C06): a get_immutable future that was polled once — the request is submitted — and is then
+    //          left alone, neither polled nor dropped (parked in a select!, or its task is waiting for
+    //          another call on the same node), while several nodes answer with the value.  Every other
+    //          call on the node goes on; the actor never waits for a caller
+    for round in 0..(if thorough { 3 } else { 1 }) {
+        t0 += 10_000_000_000_000;
+        let mut net = VNet::new(&mut rng, 4 + round, true);
+        let v = format!("held by everyone {round}").into_bytes();
+        let t = imm_target(&v);
+        let item = MutableItem::new(&key_from_seed(9), b"m3", 4, None);
+        for p in net.peers.iter_mut() {
+            p.imm.insert(t, v.clone());
+            p.muts.insert(*item.target(), (item.value().to_vec(), *item.key(), item.seq(), *item.signature()));
+        }
+        let boot = vec![net.peers[0].addr];
+        let mut d = Driver::new(out, rng.next(), net);
+        d.begin("c", &boot, None, rng.next() % 1_000_000 + 1, t0);
+        d.run_for(2 * SEC, 10 * MS);
+        let parked = d.api(format!("get_imm t={} mute=1", hex(t.as_bytes())));
+        let parked2 = d.api(format!("get_mut k={} salt=none seq=none mute=1", hex(key_from_seed(9).verifying_key().as_bytes())));
+        d.run_for(SEC, 10 * MS);
+        let c1 = d.api("info".into());
+        let tt = Id::from_bytes(d.rng.id20()).expect("id");
+        let c2 = d.api(format!("find_node t={}", hex(tt.as_bytes())));
+        let c3 = d.api(format!("get_imm t={}", hex(t.as_bytes())));
+        d.settle(20 * SEC, 10 * MS);
+        for (c, what) in [(c1, "info"), (c2, "find_node"), (c3, "get_immutable")] {
+            if d.results(c).is_empty() {
+                d.out.violation("C06", "call-hangs", format!("{what} did not return within 20 s while another caller's get future is parked"));
+            }
+        }
+        d.finish();
+        for (c, what) in [(parked, "get_immutable"), (parked2, "get_mutable")] {
+            if !d.results(c).iter().any(|r| r.contains(":some:") || r.contains(":item:")) {
+                d.out.violation("C01", "stored-item-not-yielded", format!("a parked {what} caller that came back to its future was handed {:?} although every node answered with the value", d.results(c)));
+            }
+        }
+        d.out.mark_distinct(fnv(format!("M3{round}").as_bytes()));
+        d.s.shutdown();
     }
     // ---- R: everything at once, at random (see `chaos_round`)
     for round in 0..(if thorough { 300 } else { 12 }) {
